@@ -87,8 +87,25 @@ def check_declared_value(p, key, viol):
 
 
 def recheck_declared(p, key, viol, obs, when="after the instance was used", first=None):
-    """clause 1 again, read afresh from the instance after it has been evaluated many times"""
+    """clause 1 again, read afresh from the instance after it has been evaluated many times - and, for every third instance, after a
+    user solved it a little with the shipped console listener attached / with refinement (the declaration is what the solving tests
+    and the console report compare with: it must still be the instance's optimum afterwards)"""
+    if obs is not None and first is None:
+        hk = int.from_bytes(__import__("hashlib").sha256(repr(list(key)).encode()).digest()[:2], "little")
+        dim = p.numberOfFloatVariables
+        if hk % 3 == 0:
+            x0, f0 = bench.declared(p)
+            variant = 1 + hk // 3 % 3 + 4 * (hk // 9)
+            if dim > 12:
+                variant = 1 + 4 * (hk // 9)
+            how = bench.use_instance(p, variant)
+            obs["rechecked_after:" + how] = obs.get("rechecked_after:" + how, 0) + 1
+            first = (x0, f0)
+            when = "after " + how
     xd, fd = bench.declared(p)
+    if first is not None and (not np.array_equal(np.asarray(first[0]), xd) or first[1] != fd):
+        viol.append({"mech": "optimum:declaration-changed-by-use", "key": key, "point_before": np.asarray(first[0]).tolist(), "point_after": xd.tolist(),
+                     "value_before": first[1], "value_after": fd, "when": when})
     v = float(bench.evaluate(p, xd))
     if obs is not None:
         obs["declared_rechecked_after_use"] = obs.get("declared_rechecked_after_use", 0) + 1
